@@ -287,6 +287,8 @@ class DecorateNamespaceProperty(FnSpec):
         for w in range(3):
             # ghost call: find_checker's proved contract (specs/decorators.py: a_found_checker_has_the_lists) applied to each
             # accessor -- a checker that is found is an object existing at entry which carries the lists
+            REG.assumptions.add("_decorate_namespace_property: find_checker's proved postcondition (a found checker exists at entry and carries the lists) "
+                                "applied to the property's own accessors as a ghost call")
             f, k0 = self.own(st, a, w), found(st, self.own(st, a, w))
             st.assume(z3.Implies(z3.And(f != NONE, k0 != NONE), z3.And(has_lists(st, k0), k0 < st.ctr, k0 <= f)))
         st.assume(z3.ForAll([o], z3.Implies(o < st.ctr, z3.And([attr(st, o, LISTS[w]) < st.ctr for w in LISTS] + [attr(st, o, x) < st.ctr for x in ACCN]))))
